@@ -52,7 +52,7 @@ def ast_from_string(value: str) -> datetime.datetime | str:
     except ValueError as err:
         logging.warning('Failed to parse availabilityStartTime: %s', err)
         raise err
-    if not isinstance(value, datetime.datetime):
+    if value is not None and not isinstance(value, datetime.datetime):
         # from_isodatetime() also accepts a time without a date
         raise ValueError(f'availabilityStartTime needs a date: {value}')
     return value
